@@ -402,12 +402,6 @@ func (in *inv) step(op *Op) {
 			in.vars[op.Var] = v
 		}
 		f := F{"inv": in.id, "label": op.Label, "val": fmtVal(v), "dval": deepVal(v), "gen": b.Desc}
-		if b.Desc == "Permutation" {
-			useUp(v) // the check does with its value what it likes (here: reverses it in place); the generator must not notice
-		}
-		if r.rec.Wants("contract") && in.kept != nil {
-			*in.kept = append(*in.kept, keptValue{op.Label, b.Desc, v, deepVal(v)})
-		}
 		if r.rec.Wants("contract") && !(r.rec.Wants("final-contracts-only") && CurPhase.Load() != "final") {
 			c := b.Check(v)
 			c["inv"], c["gen"] = in.id, b.Desc
@@ -415,6 +409,12 @@ func (in *inv) step(op *Op) {
 			r.rec.Emit("contract", c)
 		} else {
 			r.rec.Emit("draw", f)
+		}
+		if b.Desc == "Permutation" || b.Desc == "MapSampled" {
+			useUp(v) // the check does with its value what it likes (here: reverses it in place); the generator must not notice
+		}
+		if r.rec.Wants("contract") && in.kept != nil {
+			*in.kept = append(*in.kept, keptValue{op.Label, b.Desc, v, deepVal(v)})
 		}
 	case "if":
 		if in.eval(op.Cond) {
